@@ -247,6 +247,14 @@ class FloatLiteral(Literal[float]):
     def __init__(self, token: TokenT, value: float):
         super().__init__(token, value)
 
+    def __str__(self) -> str:
+        text = repr(self.value)
+        mantissa, exp, exponent = text.partition("e")
+        if exp and "." not in mantissa:
+            # "1e+20" would be read back as an integer literal.
+            return f"{mantissa}.0e{exponent}"
+        return text
+
     def __eq__(self, other: object) -> bool:
         return isinstance(other, FloatLiteral) and self.value == other.value
 
